@@ -52,6 +52,7 @@ type offScen struct {
 	closeReturned bool
 	closeReturnedUs int64
 	closing       bool
+	remanaged     int // partitions handed out again right after AsyncClose
 	initial       int64
 	lastMarkE     uint64
 	lastCommitE   uint64
@@ -241,6 +242,21 @@ func scenOffsets(r *run) {
 	k.logf("closing: AsyncClose on %d POMs, then OffsetManager.Close()", len(os.poms))
 	for _, ps := range os.sorted() {
 		ps.pom.AsyncClose()
+		if closeOp != nil && closeOp.Arg == "remanage" {
+			// the application asks for the partition again at once: whether the manager refuses (the old one is
+			// still registered) or hands out a new one, the marks made so far are still owed to the coordinator
+			os.r.probe("partition-asked-for-again-right-after-asyncclose")
+			if p2, err := om.ManagePartition(ps.topic, ps.part); err == nil {
+				os.remanaged++
+				drainWG.Add(1)
+				go func() {
+					defer drainWG.Done()
+					for range p2.Errors() {
+					}
+				}()
+				p2.AsyncClose()
+			}
+		}
 	}
 	_ = om.Close()
 	os.closeReturned = true
